@@ -230,9 +230,12 @@ def site_obligations(rep):
     # unary operator table: keys cover every operator the grammars build UnaryOperation with
     fd = repo.find_function(RENDER, 'SqlalchemyRender.to_expression')
     opmap = None
-    for n in ast.walk(fd):
-        if isinstance(n, ast.Assign) and isinstance(n.targets[0], ast.Name) and n.targets[0].id == 'opmap' and isinstance(n.value, ast.Dict):
-            opmap = {k.value for k in n.value.keys if isinstance(k, ast.Constant)}
+    # the table the UnaryOperation branch indexes: a dict literal (local or module level) that maps NOT and - to method names
+    for n in list(ast.walk(fd)) + list(ast.walk(repo.module_ast(RENDER))):
+        if isinstance(n, ast.Assign) and isinstance(n.value, ast.Dict):
+            keys = {k.value for k in n.value.keys if isinstance(k, ast.Constant)}
+            if {'NOT', '-'} <= {str(k).upper() for k in keys} and opmap is None:
+                opmap = keys
     grammar_ops = set()
     for dname in lrtab.DIALECTS:
         d = lrtab.load(dname)
@@ -410,10 +413,8 @@ def bounded(rep, tier):
                     except Exception:
                         pass
                 if err is not None and (fb or not isinstance(err, (SQLAlchemyError, NotImplementedError))):
-                    tb = traceback.extract_tb(err.__traceback__)
-                    frames_ = [f for f in tb if f.filename.endswith('sqlalchemy_render.py')]
-                    where = frames_[-1].name if frames_ else '?'
-                    fails.setdefault(f'C17.bounded.{type(err).__name__}.{where}', (sql, f'get_string({dn!r}, with_failback={fb}) raises {type(err).__name__}: {str(err)[:80]}'))
+                    from vlib.core import exc_class_id
+                    fails.setdefault(f'C17.bounded.{exc_class_id(err)}', (sql, f'get_string({dn!r}, with_failback={fb}) raises {type(err).__name__}: {str(err)[:80]}'))
     rep.bounded_evals = n
     rep.bounded_rule = (f'{len(trees)} parser-produced trees (production-exhaustive corpus + test statements + unsupported-shape samples) x {len(names)} dialect names x fallback on/off; '
                         'fallback on: must not raise; off: only SQLAlchemyError/NotImplementedError; to_tree() before == after; failures grouped by exception class x renderer function')
